@@ -20,6 +20,12 @@ if not ok:
 lib.ensure_makefile()
 claimed = [c["property_id"] for c in json.load(open("MANIFEST.json"))["checks"]]
 targets = ["props/%s.vo" % c for c in claimed]
+try:
+    for n, pids in json.load(open("harness/props/COMPOSE.json")).items():
+        if any(p in claimed for p in pids) and os.path.exists(os.path.join(lib.COQ, "props", n + ".v")):
+            targets.append("props/%s.vo" % n)
+except Exception as e:
+    print("COMPOSE.json:", e)
 for c in claimed:
     targets += [os.path.relpath(p, lib.COQ)[:-2] + ".vo" for p in glob.glob(os.path.join(lib.COQ, "model", c + "*.v"))]
 ok, log, dt = lib.coq_make(sorted(set(targets)), timeout=3000)
